@@ -32,6 +32,20 @@ def write_replay(prop, kind, payload):
     return os.path.relpath(path, C.VERIF)
 
 
+def restore_gen():
+    """Every generated file this run does NOT regenerate is put back to its pinned snapshot first (an earlier run against a scratch copy of the
+    repository may have left its own translation behind): the only generated definitions that differ from the snapshots are then the ones
+    translated from the tree under check in this run."""
+    gen, snap = os.path.join(C.LEAN_DIR, "VerdeModel", "Gen"), os.path.join(C.LEAN_DIR, "VerdeModel", "GenSnapshot")
+    for f in sorted(os.listdir(snap)):
+        if f.endswith(".lean.txt"):
+            want = open(os.path.join(snap, f)).read()
+            tgt = os.path.join(gen, f[:-4])
+            if not os.path.exists(tgt) or open(tgt).read() != want:
+                with open(tgt, "w") as h:
+                    h.write(want)
+
+
 def lean_stage(prop, tier, translated=False):
     """Regenerate translated definitions (if any), build the property's theorem module + driver, audit axioms."""
     res = {"build_ok": False, "obligations": 0, "discharged": 0, "broken": [], "log": "", "translator": "not used"}
@@ -42,9 +56,10 @@ def lean_stage(prop, tier, translated=False):
         import py2lean_gridder
 
         def pre():
+            restore_gen()
             st, detail = {"coords": py2lean.main_coords, "utils": py2lean.main_utils, "io": py2lean.main_io, "base": py2lean.main_base, "chain": py2lean.main_chain, "score": py2lean.main_score, "neighbors": py2lean.main_neighbors, "grid": py2lean.main_grid, "blocks": py2lean.main_blocks, "ls": py2lean.main_ls, "gridder": py2lean_gridder.main_gridder, "mask": py2lean_gridder.main_mask, "cvsplit": py2lean_gridder.main_cvsplit, "windows": py2lean_gridder.main_windows, "modelsel": py2lean_gridder.main_modelsel, "blocksplit": py2lean_gridder.main_blocksplit, "distmask": py2lean_gridder.main_distmask, "vector": py2lean_gridder.main_vector, "fit": py2lean_gridder.main_fit, "makegrid": py2lean_gridder.main_makegrid, "blockmean": py2lean_gridder.main_blockmean, "gridcoords": py2lean_gridder.main_gridcoords}.get(translated, py2lean.main_kernels_and_trend)()
             res["translator"] = st + (": " + detail if detail else "")
-    ok, log = C.lake_build(targets, pre=pre)
+    ok, log = C.lake_build(targets, pre=pre or restore_gen)
     res["build_ok"] = ok
     res["checker_cmd"] = f"cd lean && lake build {' '.join(targets)} && lake env lean <generated #print axioms file for Props/{prop}.lean>"
     names = C.theorem_names(prop)
